@@ -50,6 +50,22 @@ def run_geo(c):
     grid = Grid(np.arange(4.0), pos.T.copy(), silence_level=3)
     net = SpatialNetwork(grid, adjacency=A.copy(), silence_level=3)
     D = np.abs(pos[:, None, :] - pos[None, :, :]).sum(axis=2)
+    # the caller's distance matrix in one of several representations (the values are small integers, exact in
+    # single precision): float64, float32, a float32 BLOCK of a larger matrix (a regional sub-network),
+    # every second entry of a larger float32 matrix, column-major float32
+    rep = (zlib.crc32(c["case"].encode()) // 2) % 5
+    if rep == 1:
+        D = D.astype(np.float32)
+    elif rep == 2:
+        big = np.full((n + 3, n + 2), 99.0, dtype=np.float32)
+        big[:n, :n] = D
+        D = big[:n, :n]
+    elif rep == 3:
+        big = np.full((2 * n, 2 * n), 99.0, dtype=np.float32)
+        big[::2, ::2] = D
+        D = big[::2, ::2]
+    elif rep == 4:
+        D = np.asfortranarray(D.astype(np.float32))
     E = len(EDGES[c["setup"]])
     draws = [v for pair in c["hist"] for v in pair]
     script = Script([(d - 1 + 0.5) / E for d in draws])
@@ -75,7 +91,8 @@ def run_geo(c):
     rec["shape1"] = [int(v) for v in A1.shape]
     rec["extra_links"] = int(A1[n0:, :].sum() + A1[:, n0:].sum()) if A1.shape[0] > n0 else 0
     rec["A1"] = enc.ints(A1[:n0, :n0])
-    rec["D"] = enc.ints(D[:n0, :n0])
+    rec["D"] = enc.ints(np.asarray(D, dtype=float)[:n0, :n0])
+    rec["drep"] = ["float64", "float32", "float32_block", "float32_strided", "float32_fortran"][rep]
     return rec
 
 
